@@ -127,6 +127,20 @@ def r1_static(repo: Repo, rep):
         stored = p.env.get("self.created_points")
         rep.check(R, stored is not None and dump(stored) == dk and p.ret is not None and dump(p.ret) == dk, fi.site(p.ret_node), fi.fq,
                   "the fresh draw is both cached and returned", f"cached {dump(stored)[:60]}, returned {dump(p.ret)[:60]}", "store/return mismatch")
+    # ---- the ONE stored set: whatever is assigned to self.created_points anywhere in the class is nothing, a fresh draw, or the current set moved to a device
+    from ..util import deref, single_defs
+    for mname, m in sorted(ss.methods.items()):
+        tmp = single_defs(m.node)
+        for n_ in ast.walk(m.node):
+            if not (isinstance(n_, ast.Assign) and any(dump(t) == "self.created_points" for t in n_.targets)):
+                continue
+            rep.saw(m)
+            v = deref(n_.value, tmp)
+            t = dump(v)
+            ok = (isinstance(v, ast.Constant) and v.value is None) or (isinstance(v, ast.Call) and dump(v.func) == "self.sampler.sample_points") \
+                or (isinstance(v, ast.Call) and isinstance(v.func, ast.Attribute) and v.func.attr == "to" and dump(v.func.value) == "self.created_points")
+            rep.check(R, ok, m.site(n_), m.fq, "self.created_points is assigned None, a fresh draw of the wrapped sampler, or itself moved to a device (no second store of drawn points that could come back later)",
+                      t[:100], f"created_points = {t[:80]}")
     # ---- queries do not advance the automaton
     for qname in ("__len__",):
         q = ss.methods.get(qname)
